@@ -95,6 +95,7 @@ ShadowOn == \/ Focus = "ALL"
             \/ (Focus \in {"C05", "C09", "C03"} /\ Phon)     \* (C03: what holds for the lists of a brand-new context - MC_Split - holds for equal lists)
             \/ (Focus = "C06" /\ ended)
             \/ Focus = "C18"      \* (what the table walk establishes for brand-new contexts holds for equal lists of used ones)
+            \/ (Focus = "C15" /\ ~Phon)   \* (likewise what the prefix corpus establishes for the fixed-layout lists)
             \/ (Focus = "C11" /\ upd)
 \* comparable: the specification's own view (a recorder that answers "na" where a comparison is possible is rejected)
 Shadow(comparable, c2) ==
